@@ -121,6 +121,7 @@ func runC23(r *Report) {
 			r.ObSite("R23a", Site{st, b, len(b.Instrs) - 1, iff}, "wrong-role-arm:"+s, closes && errRet, "a node answering with the wrong role is closed and reported as an error, never routed to")
 		}
 	}
+	roleVerifiedOnSuccess(r, "R23a")
 	r.Min("R23a", 6)
 
 	// R23c switch event
